@@ -10,11 +10,13 @@ import (
 
 	"github.com/openbao/openbao/sdk/v2/helper/verifx"
 	"github.com/openbao/openbao/sdk/v2/logical"
+	"github.com/openbao/openbao/v2/internal/helper/namespace"
 	"pgregory.net/rapid"
 )
 
 const c19Policy = `
 path "rb/*" { capabilities = ["create","read","update","delete","list"] }
+path "ns1/rb/*" { capabilities = ["create","read","update","delete","list"] }
 path "auth/token/create" { capabilities = ["update"] }
 path "auth/token/create-orphan" { capabilities = ["update", "sudo"] }
 path "auth/token/create/*" { capabilities = ["update"] }
@@ -30,6 +32,7 @@ type c19Task struct {
 type c19Env struct {
 	tc  *tcore
 	hub *recHub
+	ns1 *namespace.Namespace
 }
 
 func newC19Env(t *testing.T, transactional bool) *c19Env {
@@ -40,8 +43,15 @@ func newC19Env(t *testing.T, transactional bool) *c19Env {
 	tc.mount("rb", "recbe", nil)
 	tc.mount("other", "recbe", nil)
 	tc.writePolicy("c19", c19Policy)
+	// a child namespace with the same backend: a token of the root namespace may be used there too
+	tc.mustOK(tc.req(logical.UpdateOperation, "sys/namespaces/ns1", tc.root, nil), "namespace ns1")
+	ns1, err := tc.c.namespaceStore.GetNamespaceByPath(tc.ctx, "ns1/")
+	if err != nil || ns1 == nil {
+		t.Fatalf("harness: namespace lookup: %v", err)
+	}
+	tc.mustOK(tc.reqNS(ns1, logical.UpdateOperation, "sys/mounts/rb", tc.root, map[string]any{"type": "recbe"}), "mount in ns1")
 	tc.mustOK(tc.req(logical.UpdateOperation, "auth/token/roles/c19orphan", tc.root, map[string]any{"orphan": true, "allowed_policies": "default,c19"}), "orphan role")
-	return &c19Env{tc: tc, hub: hub}
+	return &c19Env{tc: tc, hub: hub, ns1: ns1}
 }
 
 func (e *c19Env) request(kind string, i int, tok string) rr {
@@ -57,6 +67,12 @@ func (e *c19Env) request(kind string, i int, tok string) rr {
 		return tc.req(logical.ReadOperation, fmt.Sprintf("other/echo/t%d", i), tok, nil)
 	case "creds":
 		return tc.req(logical.ReadOperation, fmt.Sprintf("rb/creds/c%d", i), tok, nil)
+	case "ns-echo":
+		// the same token presented on a request addressed to the child namespace (namespace by context)
+		return tc.reqNS(e.ns1, logical.ReadOperation, fmt.Sprintf("rb/echo/t%d", i), tok, nil)
+	case "ns-kvwrite":
+		// ... and with the namespace given as a path prefix
+		return tc.req(logical.UpdateOperation, fmt.Sprintf("ns1/rb/kv/k%d", i), tok, map[string]any{"v": i})
 	case "lookup":
 		return tc.req(logical.ReadOperation, "auth/token/lookup-self", tok, nil)
 	case "child":
@@ -69,7 +85,7 @@ func (e *c19Env) request(kind string, i int, tok string) rr {
 	panic(kind)
 }
 
-var c19Kinds = []string{"echo", "kvread", "kvwrite", "denied", "creds", "lookup", "child", "child-orphan", "child-role"}
+var c19Kinds = []string{"echo", "kvread", "kvwrite", "denied", "creds", "lookup", "child", "child-orphan", "child-role", "ns-echo", "ns-kvwrite", "ns-echo"}
 
 func (e *c19Env) accessors() map[string]bool {
 	r := e.tc.req(logical.ListOperation, "auth/token/accessors/", e.tc.root, nil)
@@ -85,7 +101,7 @@ func (e *c19Env) accessors() map[string]bool {
 }
 
 func TestVerif_C19_UseLimit(t *testing.T) {
-	rec := verifx.NewRecorder("C19", "use-limit", "token with num_uses n in 1..4 and m in n+1..n+3 concurrent requests (echo/kv read/kv write/policy-denied/lease-generating/lookup-self/child-token create) presenting it, interleaved at storage-operation granularity by a generated schedule (stay-or-switch random walk, shrinks to few preemptions); oracle: requests that reached a backend handler or succeeded at the token store <= n, no child token, token dead afterwards, every secret leased under it revoked; also sequential histories (exact count), a third of them with a restart of the server between two uses; non-trivial = at least one context switch between two unfinished tasks inside the requests")
+	rec := verifx.NewRecorder("C19", "use-limit", "token with num_uses n in 1..4 and m in n+1..n+3 concurrent requests (echo/kv read/kv write/policy-denied/lease-generating/lookup-self/child-token create, and echo/kv write addressed to a child namespace the token's policy reaches into) presenting it, interleaved at storage-operation granularity by a generated schedule (stay-or-switch random walk, shrinks to few preemptions); oracle: requests that reached a backend handler or succeeded at the token store <= n, no child token, token dead afterwards, every secret leased under it revoked; also sequential histories (exact count), a third of them with a restart of the server between two uses; non-trivial = at least one context switch between two unfinished tasks inside the requests")
 	defer rec.Flush()
 	// one core per storage flavour, reused for a number of cases (every case makes its own token and paths)
 	envs := map[bool]*c19Env{}
